@@ -122,6 +122,10 @@ func (p *StageWorkerPool) worker(ctx context.Context) {
 			if !ok {
 				return
 			}
+			if verifEnabled {
+				verifTrace(p.stage.Name()+"_take", item, 0)
+				verifStageDelay(p.stage.Name(), item)
+			}
 
 			err := p.stage.Process(ctx, item)
 
@@ -139,14 +143,23 @@ func (p *StageWorkerPool) worker(ctx context.Context) {
 				select {
 				case p.errors <- err:
 				case <-ctx.Done():
+					if verifEnabled {
+						verifTrace(p.stage.Name()+"_drop", item, 0)
+					}
 					return
 				}
 			}
 
 			// Forward to next stage (even on error, for stats tracking)
+			if verifEnabled {
+				verifTrace(p.stage.Name()+"_put", item, 0)
+			}
 			select {
 			case p.output <- item:
 			case <-ctx.Done():
+				if verifEnabled {
+					verifTrace(p.stage.Name()+"_drop", item, 1)
+				}
 				return
 			}
 		}
